@@ -1,7 +1,7 @@
 // C11 leaf predicates of the 2D Boolean sweep (boolean2_sweep.cpp, anonymous
 // namespace - reached by including the source file) and the shared kernels.
 #include "vf_harness.h"
-#include "/repo/src/boolean2_sweep.cpp"
+#include "boolean2_sweep.cpp"
 using namespace manifold;
 #ifndef VF_BND
 #define VF_BND 1e100
